@@ -6,7 +6,7 @@ from .. import seqx
 
 
 BEHAVIOURS = ["local_keep", "local_drop", "remote_keep", "remote_drop", "merged_drop", "merged_keep",
-              "none", "raises", "nontuple", "triple", "nonfile"]
+              "none", "raises", "nontuple", "triple", "nonfile", "local_drop_read", "remote_drop_read", "merged_drop_written"]
 MERGED = b"MERGED"
 
 
@@ -41,6 +41,14 @@ def resolver(w, f1, f2):
         return (rem, True)
     if b == "remote_drop":
         return (rem, False)
+    if b == "local_drop_read":          # the application read both handles to decide and hands one back as it is
+        return (loc, False) if (loc.read() or True) else None
+    if b == "remote_drop_read":
+        return (rem, False) if (rem.read() or True) else None
+    if b == "merged_drop_written":      # merged data written into a buffer that is handed back un-rewound
+        buf = io.BytesIO()
+        buf.write(MERGED)
+        return (buf, False)
     if b == "merged_drop":
         return (io.BytesIO(MERGED), False)
     if b == "merged_keep":
